@@ -14,21 +14,27 @@ RULE = ("nat: pairs of names built from letters, digit runs (leading zeros, equa
         "cmp: one comparison attr x (i,j) on argument lists of integers (u128/i128 boundaries), negatives, decimals "
         "(<= 15 significant digits, exponents), inf/nan words, version-like and other strings, mixed; "
         "sort: whole lists (up to 64 names, a third longer than 20 so std's order-violation detection is live) under "
-        "3 attributes x 2 directions; tree: sibling sets via tree_dump. Lists on which an f64 comparison would differ "
-        "from the exact one (integers beyond 2^53 against decimals) are excluded (ASSUMPTIONS). "
+        "3 attributes x 2 directions, run with the exact decimal oracle on lists where f64 comparison is the exact one; "
+        "wcmp/wsort: names around 2^53, 2^64, 2^127, i128::MIN-1, u128::MAX+1, 10^38..10^40 with .0/.5/exponent "
+        "spellings, overflowing exponents, few distinct names repeated (the shape of the pre-6cb0c72 panic witness), run "
+        "with the float oracle recorded on the implementation side; tree: forests of hand-built entries (plain benches with "
+        "and without argument lists, modules, bench groups, generic groups types/consts/types x consts) through tree_dump, "
+        "which sorts with the real EntryTree::sort_by_attr (argument order inside leaves included). "
         "Non-trivial = the two names differ (nat), i != j and attr != location (cmp), the sorted order is not the "
         "input order or its reverse (sort); distinct by input line.")
 ASSUMPTIONS = [
-    "str::parse::<f64> is modelled by the float grammar of core::num::dec2flt with the exact rational value of the literal "
-    "(Model/ArgCmp.v dec_parse); the theorems hold for every oracle that is exact (order-reflecting) on the integer names of "
-    "the list (oracle_ok_on). Real f64 parsing rounds: integer names beyond 2^53 compared with non-integer spellings "
-    "(\"9007199254740993\" vs \"9007199254740992.0\") are outside that domain, there the real comparator is not a total "
-    "order (lemma rounding_oracle_breaks_preorder; the real crate panics in sort_by on >= 21 such names)",
+    "str::parse::<f64> is a parameter of the model (oracle): the theorems need it to be a total preorder on its values, to accept "
+    "every integer name, to be monotone on integer names (rounding may merge neighbours, never swap them) and not to round a "
+    "non-zero integer to zero - true of a correctly rounding parser for every name; the streams cmp/sort run the model with the "
+    "exact decimal oracle dec_parse (float grammar of core::num::dec2flt, exact value) on lists where f64 comparison is exact, "
+    "the streams wcmp/wsort run it with the values recorded from the real parse (any names); the specification additionally "
+    "checks that the recorded oracle accepts exactly the names dec_parse accepts",
     "slice::sort_by / sort_unstable_by are assumed to return a sorted permutation whenever the comparator is a total "
     "preorder on the elements (Model/SortBy.v sort_by; the insertion sort is the executable instance)",
     "addresses of the elements of one slice / of entries in one static array compare like their indices",
-    "constants of one generic benchmark have one type whose PartialOrd is a total order consistent with its ToString "
-    "(integers, bool, char); sibling groups sharing a source location all have an entry address or none has",
+    "tree: constants of one generic benchmark have one type whose PartialOrd is a total order consistent with its ToString "
+    "(integers, bool, char) and are not siblings of other kinds of entries; sibling groups sharing a source location all have an "
+    "entry address or none has (hypotheses of C16_treecmp_total, each shown necessary by a witness)",
 ]
 TRUSTED = [
     "core::num integer and float parsing of the Rust toolchain (tied to the model by the cmp/sort streams)",
@@ -249,7 +255,8 @@ def gen_string(rng):
 
 
 def gen_arg_list(rng, n):
-    kind = rng.choice(["int", "int", "signed", "float", "float", "string", "mixed", "mixed", "version", "small-ints"])
+    kind = rng.choice(["int", "int", "signed", "float", "float", "string", "mixed", "mixed", "version", "small-ints", "zeros", "respelt"])
+    base = rng.choice([1, 2, 10, 15, 100])
     out = []
     for _ in range(n):
         if kind == "int":
@@ -262,6 +269,11 @@ def gen_arg_list(rng, n):
             s = gen_decimal(rng) if rng.random() < 0.8 else rng.choice(WORDS + [str(rng.randrange(0, 1000)), "-" + str(rng.randrange(0, 1000))])
         elif kind == "string":
             s = gen_string(rng)
+        elif kind == "zeros":
+            s = rng.choice(["0", "-0", "+0", "00", "-00", "0.0", "-0.0", "0e0", "-0e5", ".0", "0.", "1", "-1", "0a", "-"])
+        elif kind == "respelt":
+            v = base + rng.choice([0, 0, 0, 1, -1])
+            s = rng.choice(["%d", "0%d", "+%d", "%d.0", "%d.00", "%de0", "%d.", "00%d"]) % v
         elif kind == "version":
             s = "%d.%d%s" % (rng.randrange(0, 3), rng.randrange(0, 12), rng.choice(["", "", "a", ".0", ".1", "-rc1", "0"]))
         else:
@@ -331,6 +343,17 @@ def gen_tree_case(rng):
             k = rng.randrange(len(ARGS_TABLE))
             args = "%d=%s" % (k, ",".join(enc2(a) for a in ARGS_TABLE[k]))
         items.append(["B", None, "::".join(m), name, raw, loc, args])
+    # a leaf whose name ties with a sibling module's name (the tie-breakers then decide)
+    for m in mods[1:]:
+        if rng.random() < 0.5:
+            parent = m[:-1]
+            disp = m[-1][2:] if m[-1].startswith("r#") else m[-1]
+            name = rng.choice([disp, re.sub(r"([0-9]+)", lambda mm: "0" + mm.group(1), disp)])
+            if name in used_leaf.setdefault(parent, set()):
+                continue
+            used_leaf[parent].add(name)
+            loc = (rng.choice(FILES), rng.randrange(1, 30), rng.choice([1, 5, 9]))
+            items.append(["B", None, "::".join(parent), name, "t%d" % len(items), loc, "-"])
     # bench groups on modules that exist as parents (only those with leaves below appear in the tree)
     gline = 100
     for m in mods[1:]:
@@ -373,6 +396,37 @@ def gen_tree_case(rng):
         loc = it[5]
         toks.append(";".join([it[0], str(r), enc2(it[2]), enc2(it[3]), enc2(it[4]), enc2(loc[0]), str(loc[1]), str(loc[2]), it[6]]))
     return toks
+
+
+BIG = [2**53 - 1, 2**53, 2**53 + 1, 2**53 + 2, 2**53 + 3, 2**63, 2**64 - 1, 2**64, 2**64 + 1, 2**127 - 1, 2**127, 2**127 + 1,
+       2**128 - 1, 2**128, 2**128 + 1, 10**20, 10**20 + 1, 10**38, 10**39, 10**40, 123456789012345678901234567890]
+
+
+def gen_wild_name(rng, center):
+    """Names around one big integer: neighbours, decimal/exponent spellings that round to it, negatives."""
+    v = center + rng.choice([0, 0, 1, -1, 2, -2, 3])
+    k = rng.random()
+    if k < 0.45:
+        s = str(v)
+    elif k < 0.6:
+        s = str(v) + rng.choice([".0", ".5", ".00", ".", ".25", "e0", ".0e0", ".9"])
+    elif k < 0.7:
+        m = str(v)
+        s = m[0] + "." + m[1:] + "e" + str(len(m) - 1)
+    elif k < 0.8:
+        s = "0" * rng.randrange(1, 3) + str(v)
+    elif k < 0.9:
+        s = "+" + str(v)
+    else:
+        s = rng.choice(["1e400", "-1e400", "inf", "1e-400", "0", "-0", "0.0", "abc", "1.5"])
+    if rng.random() < 0.35 and s[0] not in "+-":
+        s = "-" + s
+    return s
+
+
+def gen_wild_list(rng, n):
+    center = rng.choice(BIG)
+    return [gen_wild_name(rng, center) for _ in range(n)]
 
 
 def valid_name(s):
@@ -458,6 +512,36 @@ def streams(tier, rng):
         for rev in (0, 1):
             sort_cases.append(f"{attr} {rev} {el}")
 
+    # ---- wild: no domain restriction, the float oracle is the recorded one ----
+    n_w = 300 if quick else 8000
+    wcmp_cases = list(corpus.get("wcmp", []))
+    wsort_cases = list(corpus.get("wsort", []))
+    hist_w = {"corpus": len(wcmp_cases) + len(wsort_cases), "len<=20": 0, "len>20": 0}
+    while len(wcmp_cases) < n_w:
+        names = gen_wild_list(rng, rng.randrange(2, 6))
+        el = enc_list(names)
+        i, j = rng.randrange(len(names)), rng.randrange(len(names))
+        wcmp_cases.append(f"name {i} {j} {el}")
+        wcmp_cases.append(f"name {j} {i} {el}")
+    while len(wsort_cases) < n_w // 2:
+        n = rng.randrange(21, 50) if rng.random() < 0.5 else rng.randrange(2, 21)
+        names = gen_wild_list(rng, n)
+        if rng.random() < 0.5:
+            pool = names[: rng.randrange(2, 5)]
+            names = [rng.choice(pool) for _ in names]      # few distinct names, many repeats (the panic witness's shape)
+        hist_w["len>20" if n > 20 else "len<=20"] += 1
+        el = enc_list(names)
+        attr = rng.choice(["kind", "name"])
+        for rev in (0, 1):
+            wsort_cases.append(f"{attr} {rev} {el}")
+
+    def with_table(c, i):
+        k = i.find(" | f64:")
+        return c + " " + i[k + 3:] if k >= 0 else c
+
+    def same_result(i, m):
+        return i.split(" | ")[0] == m
+
     def nt_nat(c, m):
         a, b = c.split(" ")
         return a != b
@@ -495,8 +579,73 @@ def streams(tier, rng):
 
     out = [
         Stream("natural-order", "nat", nat, nontrivial=nt_nat, hist=hist_nat),
-        Stream("arg-comparator", "cmp", cmp_cases, nontrivial=nt_cmp, hist=hist_cmp),
-        Stream("arg-sort", "sort", sort_cases, nontrivial=nt_sort, hist=hist_sort),
+        Stream("arg-comparator", "cmp", cmp_cases, compare=same_result, nontrivial=nt_cmp, hist=hist_cmp),
+        Stream("arg-sort", "sort", sort_cases, compare=same_result, nontrivial=nt_sort, hist=hist_sort),
+        Stream("arg-comparator-recorded-f64", "wcmp", wcmp_cases, compare=same_result, model_input=with_table, nontrivial=nt_cmp, hist=hist_w),
+        Stream("arg-sort-recorded-f64", "wsort", wsort_cases, compare=same_result, model_input=with_table, nontrivial=nt_sort, hist=hist_w),
         Stream("tree-sibling-order", "tree", tree_cases, nontrivial=nt_tree, hist=hist_tree),
     ]
     return out
+
+
+def shrink(item, rerun):
+    """Greedy shrinking of a failing case: drop names (sort) / items (tree) while the specification still fails."""
+    mode, case = item.get("mode"), item.get("case")
+    if mode not in ("sort", "tree") or not case:
+        return item
+
+    def fails(c):
+        impl, model, sb = rerun(mode, c, crate=item.get("crate", CRATE), release=item.get("release", False), drv=DRV)
+        return (not sb.startswith("true")), impl, model, sb
+
+    if mode == "sort":
+        attr, rev, names = case.split(" ")
+        parts = [] if names == "%0" else names.split(",")
+        build = lambda ps: f"{attr} {rev} " + (",".join(ps) if ps else "%0")
+    else:
+        toks = case.split(" ")
+        attr, rev, parts = toks[0], toks[1], toks[2:]
+        build = lambda ps: f"{attr} {rev} " + " ".join(ps)
+    best = dict(item)
+    changed = True
+    budget = 300
+    while changed and budget > 0:
+        changed = False
+        for i in range(len(parts)):
+            budget -= 1
+            if budget <= 0:
+                break
+            cand = parts[:i] + parts[i + 1:]
+            if mode == "tree" and not cand:
+                continue
+            f, impl, model, sb = fails(build(cand))
+            if f:
+                parts = cand
+                best.update({"case": build(cand), "impl": impl, "model": model, "spec_verdict": sb})
+                changed = True
+                break
+    return best
+
+
+MANIFEST = {
+    "text": "Coq theorems, no bound on names or list lengths: natural_cmp (tokeniser over bytes, cmp_int with leading zeros) is a total "
+            "preorder whose ties are exactly equal token-key sequences, digit runs of any length compare by value; the argument-name "
+            "comparator (exact u128/i128 parsing, float parsing as an oracle) is, for ALL lists of names and every oracle monotone on the "
+            "list's integer names, a total preorder and with the position tie-breaker a strict total order, so the modelled sort never "
+            "takes std's order-violation panic, its result is the unique sorted permutation (independent of the algorithm), numbers sort "
+            "by value before other names, --sortr is exactly the reverse; the sibling comparator of the tree is a total preorder under "
+            "three stated conditions (each shown necessary by a witness); sorting a forest only permutes siblings and arguments; the "
+            "tokeniser's cuts keep every token valid UTF-8. The models are tied to the code by differential execution of four streams "
+            "(natural order, single comparisons, whole sorts up to 64 names, trees built from hand-made entries through tree_dump) and "
+            "the boolean specifications (declarative order, not the comparator's code) are evaluated on the implementation's outputs.",
+    "note": "Assumed, not proved: str::parse::<f64> is monotone on integer names and does not round a non-zero integer to zero (no "
+            "exactness needed since fix 6cb0c72; before it the real crate panicked in sort_by on >= 21 names such as 9007199254740992, "
+            "9007199254740993, 9007199254740992.0: C16_argcmp_rounding_refuted, corpus witness); std's sorts return a sorted permutation "
+            "for a total preorder; addresses in one slice/array order like indices. Known finding (contrived): a plain benchmark named "
+            "'-1x' in `mod foo` beside the constants [-2,-1] of `fn foo<const N>` gives a name cycle (hypothesis consts_uniform). Trusted: Coq kernel, extraction, "
+            "OCaml driver (incl. the glue that lays the implementation's tree dump over the unsorted tree), hooks natural_cmp / "
+            "cmp_bench_arg_names / sort_arg_names / tree_dump, harness hx-sort. The hook sort_arg_names repeats the closure of "
+            "sort_by_attr instead of calling it; the tree stream exercises the real one.",
+    "technique": "machine-checked proof in Coq (total-preorder algebra over comparison-valued functions, keys, sorted-permutation uniqueness) "
+                 "+ differential correspondence and specification evaluation against the real crate",
+}
